@@ -29,6 +29,7 @@ def main(argv=None):
     except ModuleNotFoundError:
         print(f"ANALYSIS-ERROR property={pid} no rule module")
         return 2
+    chk = None
     try:
         chk = Check(pid, a.tier, getattr(mod, "LEVEL", "other"), rf)
         repo = Repo()
@@ -38,6 +39,13 @@ def main(argv=None):
         return chk.finish()
     except AnalysisError as e:
         print(f"ANALYSIS-ERROR property={pid} {e}")
+        # violations found before the analysis stopped are still reported
+        if chk is not None and any(not o["ok"] for o in chk.obligations):
+            try:
+                if chk.finish() == 1:
+                    return 1
+            except AnalysisError:
+                pass
         return 2
     except RecursionError:
         print(f"ANALYSIS-ERROR property={pid} checker recursion limit")
